@@ -437,3 +437,92 @@ def coq_eval_bools(ctx, stream, imports, exprs, shard=300, defs="", timeout=900)
     ctx.cov["correspondence_cases"] += len(exprs)
     ctx.cov["correspondence_streams"][stream] = ctx.cov["correspondence_streams"].get(stream, 0) + len(exprs)
     return sorted(failing)
+
+
+def coq_eval_values(ctx, stream, imports, defs, exprs, kind="oqc", shard=150, timeout=900):
+    """Evaluate Coq expressions with vm_compute and return their values.
+    kind: 'oqc'  -> expressions of type option Qc  -> Fraction | None
+          'qc'   -> Qc -> Fraction
+          'bool' -> bool
+          'obool'-> option bool -> bool | None
+    defs: list of definitions shared by all shards (e.g. grammars) as (name, text) pairs;
+    only the definitions mentioned by a shard's expressions are emitted in it."""
+    d = os.path.join(COQ, "cases", f"{ctx.pid}-{os.getpid()}-{stream}")
+    os.makedirs(d, exist_ok=True)
+    show = {
+        "oqc": "Definition show (o : option Qc) : Z * Z * positive := match o with Some v => (1%Z, Qnum (this v), Qden (this v)) | None => (0%Z, 0%Z, 1%positive) end.",
+        "qc": "Definition show (v : Qc) : Z * Z * positive := (1%Z, Qnum (this v), Qden (this v)).",
+        "bool": "Definition show (b : bool) : Z * Z * positive := (1%Z, (if b then 1%Z else 0%Z), 1%positive).",
+        "obool": "Definition show (o : option bool) : Z * Z * positive := match o with Some b => (1%Z, (if b then 1%Z else 0%Z), 1%positive) | None => (0%Z, 0%Z, 1%positive) end.",
+    }[kind]
+    files = []
+    for k in range(0, len(exprs), shard):
+        chunk = exprs[k:k + shard]
+        fn = os.path.join(d, f"vals_{k // shard}.v")
+        text = "\n".join(chunk)
+        with open(fn, "w") as f:
+            f.write(imports + "\nFrom Coq Require Import ZArith QArith Qcanon List.\nImport ListNotations.\n")
+            for name, body in defs:
+                if re.search(r"\b" + re.escape(name) + r"\b", text):
+                    f.write(body + "\n")
+            f.write(show + "\n")
+            f.write("Definition vals := [\n  " + ";\n  ".join(f"show ({e})" for e in chunk) + "\n].\n")
+            f.write("Eval vm_compute in vals.\n")
+        files.append((k, fn))
+    qargs = []
+    for dd in ("lib", "gen", "model", "proofs", "props", "exec"):
+        qargs += ["-Q", os.path.join(COQ, dd), f"GV.{dd}"]
+    import concurrent.futures as cf
+
+    def one(kf):
+        k, fn = kf
+        p = subprocess.run(["bash", "-c", "ulimit -s unlimited 2>/dev/null; exec timeout %d coqc %s %s" % (timeout, " ".join(qargs), fn)],
+                           stdout=subprocess.PIPE, stderr=subprocess.STDOUT, text=True, cwd=d)
+        return k, fn, p.returncode, p.stdout
+
+    with cf.ThreadPoolExecutor(max_workers=NPROC) as ex:
+        res = list(ex.map(one, files))
+    out = [None] * len(exprs)
+    try:
+        for k, fn, rc, txt in res:
+            if rc != 0:
+                raise CoqError(f"model evaluation failed for stream {stream} ({fn}):\n{txt[-3000:]}")
+            trip = re.findall(r"\(\s*(-?\d+)%Z\s*,\s*(-?\d+)%Z\s*,\s*(\d+)%positive\s*\)", txt.replace("\n", " "))
+            n = len(exprs[k:k + shard])
+            if len(trip) != n:
+                raise CoqError(f"cannot parse coqc output for {fn}: expected {n} values, found {len(trip)}\n{txt[-1500:]}")
+            for i, (some, num, den) in enumerate(trip):
+                if some == "0":
+                    out[k + i] = None
+                elif kind in ("bool", "obool"):
+                    out[k + i] = num == "1"
+                else:
+                    out[k + i] = Fraction(int(num), int(den))
+    finally:
+        shutil.rmtree(d, ignore_errors=True)
+    ctx.cov["correspondence_cases"] += len(exprs)
+    ctx.cov["correspondence_streams"][stream] = ctx.cov["correspondence_streams"].get(stream, 0) + len(exprs)
+    return out
+
+
+def dec_val(v):
+    """decode a value produced by an implementation driver: Fraction | float | bool | ('err', msg)"""
+    if isinstance(v, bool):
+        return v
+    if isinstance(v, str):
+        return Fraction(v)
+    if isinstance(v, dict) and "f" in v:
+        return float(v["f"])
+    return ("err", v)
+
+
+def close_enough(impl, ref, rel=1e-9):
+    """impl: decoded implementation value; ref: exact Fraction (or bool) from the model"""
+    if isinstance(ref, bool) or isinstance(impl, bool):
+        return bool(impl) == bool(ref) if not isinstance(impl, tuple) else False
+    if isinstance(impl, Fraction):
+        return impl == ref
+    if isinstance(impl, float):
+        r = float(ref)
+        return abs(impl - r) <= rel * max(1.0, abs(r), abs(impl))
+    return False
